@@ -41,13 +41,13 @@ func (k EvKind) String() string { return evNames[k] }
 
 // Ev is the single event type both recorders (Artela, upstream) feed.
 type Ev struct {
-	K     EvKind
-	Depth int
-	PC    uint64
-	Op    byte
-	Gas   uint64
-	Cost  uint64
-	Stack []uint256.Int // bottom -> top
+	K       EvKind
+	Depth   int
+	PC      uint64
+	Op      byte
+	Gas     uint64
+	Cost    uint64
+	Stack   []uint256.Int // bottom -> top
 	MemLen  int
 	MemHash uint64
 	Mem     []byte // copy, only when the recorder keeps memory
